@@ -23,6 +23,15 @@ CHECKS = {
          "tuples and every (l, kind), are validated against the same operators by TLC.",
     note="occupations on a 2^-20 grid (exact); occsa/occsb never assigned None; observables read from a deep copy",
     technique="TLA+ model (Orbitals.tla) checked with TLC + batched trace validation of real MolecularOrbitals histories and Shell constructions"),
+ "C10": dict(
+    category="model_checking", design_ref="DESIGN.md section 6 C10",
+    text="TLC walks the Cayley graph of the signed-permutation group (all pairs of conventions of n<=3/4 labels) checking "
+         "IsSignedPerm, LabelMoves, RoundTripId, ReverseIsInverse in every state and Composition along every edge; every "
+         "convention table exported from the live code is checked WellFormed by TLC; recorded convert_conventions calls "
+         "(all table pairs x shared shell types x reverse, all signed permutations of s/p shells, random bases x random "
+         "conventions l<=9, composition triples, every single-label corruption) are validated against Convert/ConvertBasis.",
+    note="label strings are parsed by the harness; tables are read from the modules at run time",
+    technique="TLA+ model (Conventions.tla) checked with TLC + TLC validation of exported tables and recorded convert_conventions calls"),
 }
 NOT_YET = "check not built yet in this round (planned, see DESIGN.md section 6)"
 
